@@ -65,8 +65,30 @@ MD = "urn:oasis:names:tc:SAML:2.0:metadata"
 DS = "http://www.w3.org/2000/09/xmldsig#"
 
 
+class _XmlsecListPopen:
+    """`xmlsec1 --list-transforms` as `saml2.algsupport.get_algorithm_support` runs it (the shared stand-in only knows the
+    sign / verify / encrypt / decrypt modes): two lines, the second a comma-separated list of quoted transform names —
+    the list of an ordinary xmlsec1 1.2 build with OpenSSL."""
+
+    NAMES = ["aes128-cbc", "aes192-cbc", "aes256-cbc", "base64", "c14n", "c14n-with-comments", "exc-c14n", "exc-c14n-with-comments",
+             "enveloped-signature", "hmac-sha1", "hmac-sha224", "hmac-sha256", "hmac-sha384", "hmac-sha512", "hmac-md5", "hmac-ripemd160",
+             "rsa-sha1", "rsa-sha224", "rsa-sha256", "rsa-sha384", "rsa-sha512", "rsa-md5", "rsa-ripemd160", "dsa-sha1", "dsa-sha256",
+             "ecdsa-sha1", "ecdsa-sha224", "ecdsa-sha256", "ecdsa-sha384", "ecdsa-sha512", "sha1", "sha256", "tripledes-cbc", "xpath", "xslt"]
+
+    def __init__(self, argv, **kw):
+        self.argv = list(argv)
+
+    def communicate(self):
+        if "--list-transforms" not in self.argv:
+            return b"", b"ERROR unsupported invocation"
+        return ("Registered transform klasses:\n" + ",".join('"%s"' % n for n in self.NAMES) + "\n").encode(), b""
+
+
 def setup():
     S.install()
+    import saml2.algsupport
+
+    saml2.algsupport.Popen = _XmlsecListPopen
 
 
 # ============================================================================ XML text <-> tree
@@ -210,6 +232,14 @@ MUT_KINDS = ["drop_attr", "add_plain_attr", "add_foreign_attr", "add_xml_attr", 
              "dup_id", "rename_root", "xsi_type", "xsi_nil", "set_leaf_text", "whitespace", "drop_all_kids", "move_kid_last"]
 
 
+def _only_wildcard(n):
+    """Elements whose type's content model is one wildcard particle and nothing else (md endpoints, *:Extensions,
+    StatusDetail, SOAP Header/Body/detail).  xmlschema lets character data pass there ("[XsdAnyElement()] equals to an
+    empty complexType declaration", groups.py) although the content is element-only; the Lean validator follows XSD,
+    so mutants do not put text there."""
+    return n[1].endswith("Service") or n[1] in ("Extensions", "StatusDetail", "Header", "Body", "detail", "DiscoveryResponse")
+
+
 def mutate(tree, mut):
     """One-place damage, chosen deterministically from mut = {"kind", "seed"}. Returns a new tree."""
     t = copy.deepcopy(tree)
@@ -236,7 +266,7 @@ def mutate(tree, mut):
     elif kind == "add_xml_attr":
         n, _ = pick(lambda n, p: not any(a[1] == "lang" for a in n[2]))
         if n:
-            n[2].append(["http://www.w3.org/XML/1998/namespace", "lang", rng.choice(["en", "sv-SE", "", "not a language", "e1"])])
+            n[2].append(["http://www.w3.org/XML/1998/namespace", "lang", rng.choice(["en", "sv-SE", "", "not_a_language", "e1"])])  # no blanks: xmlschema validates a union token-wise
     elif kind == "swap_kids":
         n, _ = pick(lambda n, p: len(n[4]) >= 2)
         if n:
@@ -289,7 +319,7 @@ def mutate(tree, mut):
             a = rng.choice([a for a in n[2] if a[0] != XSI])
             a[2] = rng.choice(BAD_VALUES)
     elif kind == "text_in_parent":
-        n, _ = pick(lambda n, p: True)
+        n, _ = pick(lambda n, p: not _only_wildcard(n))
         n[3] = n[3] + rng.choice(["x", " ", "\n  ", "text & more"])
     elif kind == "dup_id":
         ids = [(n, a) for n, p in nodes for a in n[2] if a[1] in ("ID", "Id") and a[0] == ""]
@@ -327,7 +357,7 @@ def mutate(tree, mut):
             n[3] = ""
             n[4][:] = []
     elif kind == "set_leaf_text":
-        n, _ = pick(lambda n, p: not n[4])
+        n, _ = pick(lambda n, p: not n[4] and not _only_wildcard(n))
         if n:
             n[3] = rng.choice(BAD_VALUES)
     elif kind == "whitespace":
@@ -392,13 +422,14 @@ def g_text(rng):
 
 
 def g_instant(rng):
+    """xs:dateTime strings in the forms the library's own valid_date_time accepts (UTC, optional fraction / 'Z')."""
     dt = rng.choice([0, 1, 60, 300, 3600, 86400, -60, 10 ** 7])
-    c = rng.randrange(5)
+    c = rng.randrange(6)
     s = S.fmt_time(S.NOW0 + dt)
     if c == 0:
         return s[:-1] + ".250Z"
     if c == 1:
-        return s[:-1] + "+02:00"
+        return s[:-1]
     return s
 
 
@@ -418,13 +449,13 @@ def g_value(rng):
     if c < 6:
         return g_text(rng)
     if c == 6:
-        return rng.choice([0, 1, -5, 2 ** 40, 65536])
+        return rng.choice([1, -5, 2 ** 40, 65536])  # 0 is refused by do_ava ("strange value type")
     if c == 7:
         return rng.choice([True, False])
     if c == 8:
         return rng.choice([1.5, -0.25, 1e16, 3.0])
     if c == 9:
-        return rng.choice(["", None])
+        return ""
     return rng.choice(["staff", "member", "student"])
 
 
@@ -556,6 +587,8 @@ def g_sp_cfg(rng):
         eps["manage_name_id_service"] = [["https://sp.verif.example/mni", S.BINDING_SOAP], ["https://sp.verif.example/mni/r", S.BINDING_REDIRECT]]
     if rng.random() < 0.3:
         eps["assertion_consumer_service"].append(["https://sp.verif.example/acs/art", S.BINDING_ARTIFACT, rng.choice([5, "7"])])
+    if rng.random() < 0.4:
+        eps["assertion_consumer_service"].append(["https://sp.verif.example/acs/paos", S.BINDING_PAOS])
     sp["endpoints"] = eps
     return {"role": "sp", "svc": sp, "top": g_common(rng)}
 
@@ -623,7 +656,8 @@ def g_md_cfg(rng):
     if rng.random() < 0.7:
         top["with_keys"] = rng.choice(["sign", "sign+enc", "none"])
     if rng.random() < 0.2:
-        top["metadata_key_usage"] = rng.choice(["signing", "encryption", "both"])
+        # "encryption" without an encryption key pair makes do_key_descriptor crash at serialisation (list as text)
+        top["metadata_key_usage"] = rng.choice(["signing", "encryption", "both"] if top.get("with_keys") == "sign+enc" else ["signing", "both"])
     return {"role": "md", "service": service, "top": top}
 
 
@@ -845,7 +879,7 @@ def call_logout_request(ent, a):
 
 
 def ga_logout_response(rng, cfg):
-    a = {"request_id": g_ncname(rng), "bindings": rng.choice([None, [S.BINDING_SOAP], [S.BINDING_POST], [S.BINDING_REDIRECT], [S.BINDING_POST, S.BINDING_REDIRECT]]),
+    a = {"request_id": g_ncname(rng), "bindings": rng.choice([[S.BINDING_SOAP], [S.BINDING_POST], [S.BINDING_REDIRECT], [S.BINDING_POST, S.BINDING_REDIRECT]]),
          "status": g_status(rng)}
     a.update(g_sign(rng))
     if rng.random() < 0.2:
@@ -891,7 +925,7 @@ def mk_exc(kind, arg):
     import saml2.mdstore
 
     table = {"UnknownPrincipal": saml2.s_utils.UnknownPrincipal, "UnsupportedBinding": saml2.s_utils.UnsupportedBinding,
-             "VersionMismatch": saml2.VersionMismatch, "Exception": Exception, "MissingValue": saml2.s_utils.MissingValue,
+             "VersionMismatch": saml2.s_utils.VersionMismatch, "Exception": Exception, "MissingValue": saml2.s_utils.MissingValue,
              "SAMLError": saml2.SAMLError, "ValueError": ValueError, "UnknownSystemEntity": saml2.s_utils.UnknownSystemEntity}
     cls = table[kind]
     return cls() if arg is None else cls(arg)
@@ -924,9 +958,11 @@ def ga_attribute_query(rng, cfg):
             a["name_qualifier"] = g_uri(rng)
     c = rng.randrange(4)
     if c == 1:
-        a["attribute"] = [[["urn:oasis:names:tc:SAML:2.0:attrname-format:uri", "urn:oid:2.5.4.42", "givenName"], None],
-                          [["urn:oasis:names:tc:SAML:2.0:attrname-format:uri", "urn:oid:2.5.4.4"], rng.choice([None, ["a", "b"]])],
-                          [["urn:oid:0.9.2342.19200300.100.1.3"], None], ["plainname", rng.choice([None, [g_text(rng)]])]][: rng.randint(1, 4)]
+        # key: name | (name, name format) | (name, name format, friendly name); value: None | value | (value(s), xsd type)
+        a["attribute"] = [[["urn:oid:2.5.4.42", "urn:oasis:names:tc:SAML:2.0:attrname-format:uri", "givenName"], None],
+                          [["urn:oid:2.5.4.4", "urn:oasis:names:tc:SAML:2.0:attrname-format:uri"], rng.choice([None, "a", ["a", "b", "c"], [["a", "b"], "xs:string"]])],
+                          ["urn:oid:0.9.2342.19200300.100.1.3", None],
+                          ["plainname", rng.choice([None, [g_text(rng)], [g_text(rng), "xs:string"], [5, "xs:integer"]])]][: rng.randint(1, 4)]
     if rng.random() < 0.2:
         a["message_id"] = g_ncname(rng)
     if rng.random() < 0.1:
@@ -944,7 +980,7 @@ def call_attribute_query(sp, a):
     if a.get("attribute"):
         attribute = {}
         for k, v in a["attribute"]:
-            attribute[tuple(k) if isinstance(k, list) else k] = v
+            attribute[tuple(k) if isinstance(k, list) else k] = tuple(v) if isinstance(v, list) and len(v) == 2 else v
     return sp.create_attribute_query(a["destination"], name_id=name_id, attribute=attribute, **kw)[1]
 
 
@@ -969,8 +1005,8 @@ def call_authn_query(sp, a):
 
 
 def ga_authz_decision_query(rng, cfg):
-    a = {"destination": "https://idp.verif.example/pdp", "action": [[g_text(rng), rng.choice([None, "urn:oasis:names:tc:SAML:1.0:action:rwedc"])] for _ in range(rng.randint(1, 3))],
-         "resource": rng.choice([g_uri(rng), ""]), "subject": g_nameid(rng), "via_assertion": rng.random() < 0.4}
+    a = {"destination": "https://idp.verif.example/pdp", "action": [[g_text(rng), rng.choice(["urn:oasis:names:tc:SAML:1.0:action:rwedc", "urn:oasis:names:tc:SAML:1.0:action:ghpp"])] for _ in range(rng.randint(1, 3))],
+         "resource": g_uri(rng), "subject": g_nameid(rng), "via_assertion": rng.random() < 0.4}
     a.update(g_sign(rng))
     if rng.random() < 0.2:
         a["message_id"] = g_ncname(rng)
@@ -1043,7 +1079,14 @@ def call_artifact_response(ent, a):
     kw = sign_kw(a)
     if a.get("issuer"):
         kw["issuer"] = saml.Issuer(text=a["issuer"])
-    return ent.create_artifact_response(req, art, bindings=a["bindings"], status=mk_status(a["status"]), **kw)
+    try:
+        return ent.create_artifact_response(req, art, bindings=a["bindings"], status=mk_status(a["status"]), **kw)
+    except AttributeError as e:
+        # with signing in effect _status_response returns text and create_artifact_response then fails on
+        # `response.extension_elements = ...`: a crash, nothing is emitted (not a schema question)
+        if "extension_elements" in str(e):
+            return None
+        raise
 
 
 def ga_authn_response(rng, cfg):
@@ -1104,7 +1147,18 @@ def call_authn_response(idp, a):
             kw[k] = S.cert_b64(a[k])
     if a.get("status"):
         kw["status"] = mk_status(a["status"])
-    return idp.create_authn_response(a["identity"], a["in_response_to"], a["destination"], a["sp_entity_id"], **kw)
+    return _nil_crash(lambda: idp.create_authn_response(a["identity"], a["in_response_to"], a["destination"], a["sp_entity_id"], **kw))
+
+
+def _nil_crash(f):
+    """An empty attribute value (xsi:nil) makes the encrypt path crash when the text is parsed back
+    (AttributeValueBase.verify: KeyError on the xsi:nil key): nothing is emitted, not a schema question."""
+    try:
+        return f()
+    except KeyError as e:
+        if e.args and e.args[0] == "{%s}nil" % XSI:
+            return None
+        raise
 
 
 def ga_attribute_response(rng, cfg):
@@ -1131,7 +1185,7 @@ def call_attribute_response(idp, a):
         kw["name_id"] = mk_nameid(a["name_id"])
     if a.get("status"):
         kw["status"] = mk_status(a["status"])
-    return idp.create_attribute_response(a["identity"], a["in_response_to"], a["destination"], a["sp_entity_id"], **kw)
+    return _nil_crash(lambda: idp.create_attribute_response(a["identity"], a["in_response_to"], a["destination"], a["sp_entity_id"], **kw))
 
 
 def ga_authn_query_response(rng, cfg):
@@ -1256,8 +1310,13 @@ def ga_ecp_authn_response(rng, cfg):
 
 
 def call_ecp_authn_response(idp, a):
-    return idp.create_ecp_authn_request_response(S.SP_ACS_POST, a["identity"], a["in_response_to"], S.SP_ACS_POST, S.SP_ID, name_id=mk_nameid(a["name_id"]),
-                                                 authn={"class_ref": ACCR[0], "authn_auth": S.IDP_ID}, sign_response=a["sign_response"], sign_assertion=a["sign_assertion"])
+    try:
+        return idp.create_ecp_authn_request_response(S.SP_ACS_POST, a["identity"], a["in_response_to"], S.SP_ACS_POST, S.SP_ID, name_id=mk_nameid(a["name_id"]),
+                                                     authn={"class_ref": ACCR[0], "authn_auth": S.IDP_ID}, sign_response=a["sign_response"], sign_assertion=a["sign_assertion"])
+    except AttributeError as e:
+        if "c_tag" in str(e):  # a signed (text) response cannot be wrapped: crash, nothing emitted
+            return None
+        raise
 
 
 def ga_assertion_id_request(rng, cfg):
@@ -1398,13 +1457,19 @@ def parse_instance(xml, root):
 
 
 def vi_check(obj):
-    from saml2.validate import NotValid, valid_instance
+    from saml2.validate import MustValueError, NotValid, OutsideCardinality, ShouldValueError, valid_instance
 
     try:
         valid_instance(obj)
         return True, ""
-    except NotValid as e:  # MustValueError, ShouldValueError ... are subclasses
+    except (NotValid, OutsideCardinality, MustValueError, ShouldValueError) as e:
         return False, ("%s: %s" % (type(e).__name__, e))[:300]
+    except KeyError as e:
+        # AttributeValueBase.verify indexes extension_attributes[xsi:nil] on a value that has no text but a type:
+        # the library's own instance validation does not pass on this object (it crashes)
+        if e.args and e.args[0] == "{%s}nil" % XSI:
+            return False, "KeyError: xsi:nil (AttributeValueBase.verify)"
+        raise
 
 
 def run_doc(case):
@@ -1415,10 +1480,15 @@ def run_doc(case):
     inst = instance(case["cfg"])
     try:
         with S.clock(S.NOW0):
-            out = call(inst, case["args"])
+            out = _nil_crash(lambda: call(inst, case["args"]))
     except (saml2.SAMLError, UnsupportedBinding, UnknownSystemEntity) as e:
         # the builder refused these arguments (no endpoint for the binding, unknown entity ...): nothing emitted
         return {"refused": type(e).__name__}
+    except TypeError as e:
+        if not str(e).startswith("cannot serialize"):
+            raise
+        # signing serialises inside the builder: a member that is not text (a Python bool) cannot be written
+        return _unserialisable(strict, e)
     if out is None:
         return {"refused": "no-document"}
     obj = None
@@ -1429,7 +1499,13 @@ def run_doc(case):
     elif isinstance(out, (str, bytes)):
         xml = out
     else:
-        obj, xml = out, str(out)
+        obj = out
+        try:
+            xml = str(out)
+        except TypeError as e:
+            if not str(e).startswith("cannot serialize"):
+                raise
+            return _unserialisable(strict, e)
     if isinstance(xml, bytes):
         xml = xml.decode("utf-8")
     tree = xml_to_tree(xml)
@@ -1443,10 +1519,18 @@ def run_doc(case):
            "root": tree[1], "vi": True, "vi_err": ""}
     if not mut:
         if obj is None:
-            obj = parse_instance(xml, tree)
+            # the library's own parser can fail on an emitted empty AttributeValue (KeyError on xsi:nil, a
+            # round-trip question, C12): instance validation is then not applicable to the text form
+            obj = _nil_crash(lambda: parse_instance(xml, tree))
         if obj is not None:
             res["vi"], res["vi_err"] = vi_check(obj)
     return res
+
+
+def _unserialisable(strict, e):
+    """The builder returned (or tried to sign) a message object that has no string form."""
+    return {"tree": None, "emit_error": "%s: %s" % (type(e).__name__, e), "xsd": False, "xsd_err": "", "vi": False, "vi_err": "",
+            "strict": bool(strict), "mutant": False, "root": ""}
 
 
 _rows = {}
@@ -1592,7 +1676,13 @@ def lex_cases(rng, n_random):
                 i = rng.randrange(len(v))
                 v = v[:i] + rng.choice("0123456789-+:.TZ") + v[i + 1:]
             vals.append(v)
+        numeric = ty in ("unsignedShort", "nonNegativeInteger", "integer", "int", "long", "short", "positiveInteger", "unsignedInt",
+                         "unsignedByte", "byte", "decimal", "float", "double")
         for v in vals:
+            # two laxities of the second oracle are kept out of the comparison (the library never emits such values):
+            # Python's int()/float() accept '_' between digits, and xmlschema removes inner blanks of an xs:decimal
+            if numeric and ("_" in v or (ty == "decimal" and any(ch in v.strip() for ch in " \t\n"))):
+                continue
             yield {"op": "lex", "type": "{%s}%s" % (XS, ty), "value": v}
 
 
@@ -1622,12 +1712,14 @@ def doc_cases(rng, tier):
     kinds = list(MUT_KINDS)
     ki = 0
     for role, gcfg, n in plan:
-        names = [b for b, v in BUILDERS.items() if role in v[0]]
-        weights = [BUILDERS[b][4] for b in names]
         for _ in range(n):
             cfg = gcfg(rng)
             if rng.random() < 0.15:
                 cfg = {"role": "sp", "svc": {}, "top": {}} if role == "sp" else {"role": "idp", "svc": {}, "top": {}} if role == "idp" else cfg
+            names = [b for b, v in BUILDERS.items() if role in v[0]]
+            if role == "sp" and not any(e[1] == S.BINDING_PAOS for e in cfg["svc"].get("endpoints", {}).get("assertion_consumer_service", [])):
+                names.remove("ecp_authn_request")  # needs a PAOS assertion consumer service
+            weights = [BUILDERS[b][4] for b in names]
             todo = list(names) if role != "md" else []
             for j in range(per_cfg if role != "md" else 2):
                 b = todo.pop() if todo else rng.choices(names, weights)[0]
